@@ -487,6 +487,37 @@ def run_case(acc, c, spec, stacks):
                 return run_case(acc, c, spec, stacks)
         except (KeyError, TypeError):
             pass
+    if plat == "ledger" and not c["v1"] and prng.random() < 0.08 and \
+            not c.get("no_heartbeat_prelude"):
+        # the request before this one was a uiHeartbeat that failed one way or another -
+        # the device ignored the exit and stayed in the signer, a mode query or a heartbeat
+        # exchange got an error status or no answer, the heartbeat material was unusable -
+        # and the device is in the signer now: this request is relayed like any other
+        from ..simdev.transport import Fault as _F
+        from ..simdev.device import MODE_SIGNER as _MS
+        how = prng.choice(["exit-ignored", "exit-ignored", "fault", "fault", "plain"])
+        saved = (dev.cfg["hb_exit_mode"], dev.cfg["hb_back_mode"])
+        if how == "exit-ignored":
+            dev.cfg["hb_exit_mode"] = _MS
+        elif how == "fault":
+            s.bus.arm({prng.randint(1, 12): prng.choice([
+                _F("sw", sw=0x6E00), _F("sw", sw=0x6B00), _F("sw", sw=0x6D00), _F("timeout")])})
+        rp, ep, _ = s.request({"command": "uiHeartbeat", "version": 5,
+                               "udValue": prng.randbytes(32).hex()})
+        s.bus.arm({})
+        dev.cfg["hb_exit_mode"], dev.cfg["hb_back_mode"] = saved
+        acc.count("cases_preceded_by_a_ui_heartbeat")
+        if ep is not None:
+            # (the heartbeat stopped the manager: start over on a fresh one, without it)
+            s.__exit__(None, None, None)
+            stacks.pop(key, None)
+            return run_case(acc, dict(c, no_heartbeat_prelude=True), spec, stacks)
+        if isinstance(rp, dict) and rp.get("errorcode") != 0:
+            acc.count("cases_preceded_by_a_failed_ui_heartbeat")
+        dev.mode = _MS
+        dev.pending_link = None
+        dev.reset_sign()
+        del s.bus.events[:]
     nrec = len(dev.sign_records)
     mark = len(s.bus.events)
     if b.get("exchange_fault"):
